@@ -125,6 +125,205 @@ theorem v2_effective_only_if_valid (signer : Nat) (t : SessV2) (now rv rc : Nat)
       v2Admits t rv rc = true :=
   (v2_ok_iff t now rv rc).mp ((session_effect_iff signer t.issuer _).mp h)
 
+/-! ## V2 delegation chains: every token of the chain, down to the root, must be valid and signed by its own issuer -/
+
+def Signed (t : LinkV2) : Prop := t.t.sigOK = true ∧ t.t.signer = some t.t.issuer
+
+theorem authOK_iff (t : LinkV2) : authOK t.t.sigOK t.t.signer t.t.issuer = true ↔ Signed t := by
+  unfold authOK Signed; simp
+
+/-- the authentication walk (origin first, then the token, no depth bound) succeeds iff EVERY token of the chain is
+signed by its issuer's key. Induction over the chain. -/
+theorem v2ChainAuth_iff : ∀ (os : List LinkV2) (x : LinkV2),
+    v2ChainAuth x os = true ↔ ∀ t ∈ x :: os, Signed t := by
+  intro os
+  induction os with
+  | nil => intro x; simp [v2ChainAuth, authOK_iff]
+  | cons o os ih =>
+    intro x
+    simp only [v2ChainAuth, Bool.and_eq_true, ih o, authOK_iff]
+    constructor
+    · rintro ⟨h, hx⟩ t ht
+      rcases List.mem_cons.mp ht with rfl | ht
+      · exact hx
+      · exact h t ht
+    · intro h
+      exact ⟨fun t ht => h t (List.mem_cons_of_mem _ ht), h x (List.mem_cons_self ..)⟩
+
+/-- every token is linked to its origin -/
+def chainLinked : LinkV2 → List LinkV2 → Bool
+  | _, [] => true
+  | x, o :: os => linkOK x o && chainLinked o os
+
+/-- index form: token `i` of the chain and its origin (token `i+1`) satisfy `linkOK` -/
+theorem chainLinked_iff : ∀ (os : List LinkV2) (x : LinkV2),
+    chainLinked x os = true ↔ ∀ i (h : i < os.length), linkOK ((x :: os)[i]'(by simp; omega)) os[i] = true := by
+  intro os
+  induction os with
+  | nil => intro x; simp [chainLinked]
+  | cons o os ih =>
+    intro x
+    simp only [chainLinked, Bool.and_eq_true, ih o]
+    constructor
+    · rintro ⟨h0, hs⟩ i hi
+      cases i with
+      | zero => exact h0
+      | succ k => exact hs k (by simpa using hi)
+    · intro h
+      exact ⟨h 0 (by simp), fun i hi => h (i + 1) (by simp; omega)⟩
+
+/-- `Token.validate(depth)`: depth bound, fields of every token, no `final` origin, every adjacent pair linked.
+Induction over the chain, for every start depth. -/
+theorem v2ChainValid_iff : ∀ (os : List LinkV2) (x : LinkV2) (d : Nat),
+    v2ChainValid x os d = true ↔
+      d + os.length ≤ maxDelegationDepth ∧ (∀ t ∈ x :: os, v2FieldsOK t.t = true) ∧ (0 < d → x.final = false) ∧
+      (∀ o ∈ os, o.final = false) ∧ chainLinked x os = true := by
+  have hdep : ∀ d : Nat, (!Decidable.decide (d > maxDelegationDepth)) = true ↔ d ≤ maxDelegationDepth := by
+    intro d; simp
+  have hfin : ∀ (x : LinkV2) (d : Nat), (!(x.final && Decidable.decide (d > 0))) = true ↔ (0 < d → x.final = false) := by
+    intro x d; cases x.final <;> simp
+  intro os
+  induction os with
+  | nil =>
+    intro x d
+    simp only [v2ChainValid, Bool.and_eq_true, hdep, hfin, List.length_nil, Nat.add_zero, List.mem_singleton, forall_eq,
+      List.not_mem_nil, chainLinked]
+    constructor
+    · rintro ⟨⟨h1, h2⟩, h3⟩; exact ⟨h1, h2, h3, fun _ h => h.elim, trivial⟩
+    · rintro ⟨h1, h2, h3, _, _⟩; exact ⟨⟨h1, h2⟩, h3⟩
+  | cons o os ih =>
+    intro x d
+    simp only [v2ChainValid, Bool.and_eq_true, ih o (d + 1), hdep, hfin, chainLinked, List.length_cons]
+    constructor
+    · rintro ⟨⟨⟨⟨h1, h2⟩, h3⟩, h4⟩, h5, h6, h7, h8, h9⟩
+      refine ⟨by omega, ?_, h3, ?_, h4, h9⟩
+      · intro t ht
+        rcases List.mem_cons.mp ht with rfl | ht
+        · exact h2
+        · exact h6 t ht
+      · intro o' ho'
+        rcases List.mem_cons.mp ho' with rfl | ho'
+        · exact h7 (by omega)
+        · exact h8 o' ho'
+    · rintro ⟨h1, h2, h3, h4, h5, h6⟩
+      exact ⟨⟨⟨⟨by omega, h2 x (List.mem_cons_self ..)⟩, h3⟩, h5⟩, by omega, fun t ht => h2 t (List.mem_cons_of_mem _ ht),
+        fun _ => h4 o (List.mem_cons_self ..), fun o' ho' => h4 o' (List.mem_cons_of_mem _ ho'), h6⟩
+
+theorem v2Tail_iff (t : SessV2) (now rv rc : Nat) :
+    (if t.exp < now then TokRes.expired
+      else if !(Decidable.decide (t.iat ≤ now) && Decidable.decide (t.nbf ≤ now)) then TokRes.notYetValid
+      else if !v2Admits t rv rc then TokRes.wrongVerb else TokRes.ok) = TokRes.ok ↔
+      (t.iat ≤ now ∧ t.nbf ≤ now ∧ now ≤ t.exp) ∧ v2Admits t rv rc = true := by
+  by_cases he : t.exp < now <;> by_cases hi : t.iat ≤ now <;> by_cases hn : t.nbf ≤ now <;>
+    by_cases hv : v2Admits t rv rc = true <;> simp [he, hi, hn, hv] <;> omega
+
+/-- **C30, delegated V2 tokens.** `VerifySessionTokenMessage` accepts a token with a delegation chain IF AND ONLY IF the
+chain has at most `MaxDelegationDepth` origins, EVERY token of it - the root included - is structurally valid and signed
+by its own issuer's key, no origin is final, every token is linked to its origin (issuer named by the origin, lifetime
+and contexts only narrowed), and the outermost token is within its lifetime and admits the request's verb. -/
+theorem v2chain_ok_iff (x : LinkV2) (os : List LinkV2) (now rv rc : Nat) :
+    v2ChainCheck x os now rv rc = .ok ↔
+      os.length ≤ maxDelegationDepth ∧
+      (∀ t ∈ x :: os, v2FieldsOK t.t = true ∧ Signed t) ∧
+      (∀ o ∈ os, o.final = false) ∧
+      (∀ i (h : i < os.length), linkOK ((x :: os)[i]'(by simp; omega)) os[i] = true) ∧
+      (x.t.iat ≤ now ∧ x.t.nbf ≤ now ∧ now ≤ x.t.exp) ∧ v2Admits x.t rv rc = true := by
+  have hv := v2ChainValid_iff os x 0
+  have ha := v2ChainAuth_iff os x
+  rw [← chainLinked_iff]
+  unfold v2ChainCheck
+  by_cases h1 : v2ChainValid x os 0 = true
+  · by_cases h2 : v2ChainAuth x os = true
+    · have hv' := hv.mp h1
+      have ha' := ha.mp h2
+      simp only [h1, h2, Bool.not_true, Bool.false_eq_true, if_false]
+      rw [v2Tail_iff]
+      constructor
+      · rintro ⟨hl, hr⟩
+        exact ⟨by have := hv'.1; omega, fun t ht => ⟨hv'.2.1 t ht, ha' t ht⟩, hv'.2.2.2.1, hv'.2.2.2.2, hl, hr⟩
+      · rintro ⟨_, _, _, _, hl, hr⟩
+        exact ⟨hl, hr⟩
+    · have h2' : v2ChainAuth x os = false := by simpa using h2
+      simp only [h1, h2', Bool.not_true, Bool.false_eq_true, if_false, Bool.not_false, if_true, reduceCtorEq, false_iff]
+      rintro ⟨_, hall, _⟩
+      exact h2 (ha.mpr fun t ht => (hall t ht).2)
+  · have h1' : v2ChainValid x os 0 = false := by simpa using h1
+    simp only [h1', Bool.not_false, if_true, reduceCtorEq, false_iff]
+    rintro ⟨hlen, hall, hfin, hlink, _⟩
+    exact h1 (hv.mpr ⟨by omega, fun t ht => (hall t ht).1, fun h => absurd h (by omega), hfin, hlink⟩)
+
+/-- a token anywhere in the chain - the ROOT included - that is not signed by its declared issuer makes the whole token
+rejected, whatever the depth -/
+theorem v2chain_unsigned_level_rejects (x : LinkV2) (os : List LinkV2) (now rv rc : Nat)
+    (t : LinkV2) (ht : t ∈ x :: os) (hbad : ¬ Signed t) : v2ChainCheck x os now rv rc ≠ .ok := by
+  intro h
+  exact hbad (((v2chain_ok_iff x os now rv rc).mp h).2.1 t ht).2
+
+/-- the root of the chain: the token whose issuer `OriginalIssuer` returns -/
+def rootOf : LinkV2 → List LinkV2 → LinkV2
+  | x, [] => x
+  | _, o :: os => rootOf o os
+
+theorem rootOf_mem : ∀ (os : List LinkV2) (x : LinkV2), rootOf x os ∈ x :: os := by
+  intro os
+  induction os with
+  | nil => intro x; simp [rootOf]
+  | cons o os ih => intro x; exact List.mem_cons_of_mem _ (ih o)
+
+theorem originalIssuer_eq : ∀ (os : List LinkV2) (x : LinkV2), originalIssuer x os = (rootOf x os).t.issuer := by
+  intro os
+  induction os with
+  | nil => intro x; rfl
+  | cons o os ih => intro x; exact ih o
+
+/-- **whose request is it.** The request is judged as the chain's ORIGINAL issuer only if the root token itself is
+structurally valid and signed by that very account's key (and everything else of `v2chain_ok_iff` holds). -/
+theorem v2chain_effective_only_if_root_signed (signer : Nat) (x : LinkV2) (os : List LinkV2) (now rv rc : Nat)
+    (h : credentials signer (some (originalIssuer x os, v2ChainCheck x os now rv rc)) = some (originalIssuer x os)) :
+    (rootOf x os).t.sigOK = true ∧ (rootOf x os).t.signer = some (originalIssuer x os) ∧
+      v2FieldsOK (rootOf x os).t = true ∧ ∀ t ∈ x :: os, Signed t := by
+  have hok := (session_effect_iff signer _ _).mp h
+  have hall := ((v2chain_ok_iff x os now rv rc).mp hok).2.1
+  have hr := hall _ (rootOf_mem os x)
+  rw [originalIssuer_eq]
+  exact ⟨hr.2.1, hr.2.2, hr.1, fun t ht => (hall t ht).2⟩
+
+/-- a chain with more than `MaxDelegationDepth` origins is refused as invalid whatever its tokens are -/
+theorem v2chain_too_deep_rejected (x : LinkV2) (os : List LinkV2) (now rv rc : Nat) (h : maxDelegationDepth < os.length) :
+    v2ChainCheck x os now rv rc = .invalid := by
+  have : v2ChainValid x os 0 = false := by
+    cases hv : v2ChainValid x os 0 with
+    | false => rfl
+    | true => have := ((v2ChainValid_iff os x 0).mp hv).1; omega
+  simp [v2ChainCheck, this]
+
+/-- a token without origins is judged exactly as `v2Check` says (the theorems on plain V2 tokens carry over) -/
+theorem v2chain_no_origin (x : LinkV2) (now rv rc : Nat) : v2ChainCheck x [] now rv rc = v2Check x.t now rv rc := by
+  unfold v2ChainCheck v2Check
+  simp [v2ChainValid, v2ChainAuth]
+
+/-- along an accepted chain lifetimes only narrow: the outermost token lives inside the root's lifetime -/
+theorem chainLinked_lifetime : ∀ (os : List LinkV2) (x : LinkV2), chainLinked x os = true →
+    (rootOf x os).t.nbf ≤ x.t.nbf ∧ x.t.exp ≤ (rootOf x os).t.exp := by
+  intro os
+  induction os with
+  | nil => intro x _; simp [rootOf]
+  | cons o os ih =>
+    intro x h
+    simp only [chainLinked, Bool.and_eq_true] at h
+    have := ih o h.2
+    have hl := h.1
+    simp only [linkOK, Bool.and_eq_true, Bool.not_eq_true', Bool.or_eq_false_iff, decide_eq_false_iff_not] at hl
+    simp only [rootOf]
+    omega
+
+theorem v2chain_lifetime_within_root (x : LinkV2) (os : List LinkV2) (now rv rc : Nat)
+    (h : v2ChainCheck x os now rv rc = .ok) :
+    (rootOf x os).t.nbf ≤ now ∧ now ≤ (rootOf x os).t.exp := by
+  have hk := (v2chain_ok_iff x os now rv rc).mp h
+  have := chainLinked_lifetime os x ((chainLinked_iff os x).mpr hk.2.2.2.1)
+  omega
+
 /-! ## lifetime boundaries -/
 
 theorem v1_lifetime_boundaries (t : SessV1) (cur : Nat) :
@@ -286,6 +485,20 @@ example : v2Check exV2 150 3 2 = .ok := by decide                 -- wildcard co
 example : v2Check exV2 201 2 1 = .expired := by decide
 example : v2Check exV2 200 2 1 = .ok := by decide
 example : v2Check { exV2 with contexts := [{ cnr := 1, verbs := [3, 2] }] } 150 2 1 = .invalid := by decide
+/-- delegation: owner 1 → 2 → 2 → 2 → 2 (four origins = `MaxDelegationDepth`), every token signed by its issuer -/
+def exRoot : LinkV2 := { t := { exV2 with subjects := [2] } }
+def exDel : LinkV2 := { t := { exV2 with issuer := 2, signer := some 2, subjects := [2] } }
+example : v2ChainCheck exDel [exDel, exDel, exDel, exRoot] 150 2 1 = .ok := by decide
+example : originalIssuer exDel [exDel, exDel, exDel, exRoot] = 1 := by decide
+example : v2ChainCheck exDel [exDel, exDel, exDel, exDel, exRoot] 150 2 1 = .invalid := by decide          -- five origins
+-- the root says "issued by 1" but is signed by 2's key: refused at EVERY depth, the deepest admitted one included
+example : v2ChainCheck exDel [exDel, exDel, exDel, { t := { exRoot.t with signer := some 2 } }] 150 2 1 = .authFail := by decide
+example : v2ChainCheck exDel [{ t := { exRoot.t with signer := some 2 } }] 150 2 1 = .authFail := by decide
+example : v2ChainCheck exDel [exDel, exDel, exDel, { t := { exRoot.t with sigOK := false } }] 150 2 1 = .authFail := by decide
+example : v2ChainCheck exDel [{ t := { exRoot.t with subjects := [3] } }] 150 2 1 = .invalid := by decide    -- issuer 2 not named by the origin
+example : v2ChainCheck exDel [{ t := { exRoot.t with exp := 199 } }] 150 2 1 = .invalid := by decide         -- lifetime widened
+example : v2ChainCheck exDel [{ t := { exRoot.t with contexts := [{ cnr := 1, verbs := [2] }] } }] 150 2 1 = .invalid := by decide  -- verbs widened
+example : v2ChainCheck exDel [{ exRoot with final := true }] 150 2 1 = .invalid := by decide
 /-- the ideal scheme at work: a signature over body 7 does not verify for body 8 -/
 example : (pairSig Nat Nat).verify 1 8 ((pairSig Nat Nat).sign 1 7) = false := by decide
 example : (pairSig Nat Nat).verify 1 7 ((pairSig Nat Nat).sign 1 7) = true := by decide
